@@ -338,7 +338,7 @@ def part_c(level):
         "(let loop ((i 0)) (if (< i 2) (loop (+ i 1)) (list i a)))", "(* a (obs 2))", "(begin a (obs 'x) a)",
         "(list (quotient a 0))", "(lambda-test a)",
     ]
-    inits = ["1", "0", "#f", "'s", "\"str\"", "(obs 4)", "(+ 1 2)", "4611686018427387903", "(if #f #f)"]
+    inits = ["1", "0", "#f", "'#f", "'s", "\"str\"", "(obs 4)", "(+ 1 2)", "4611686018427387903", "(if #f #f)"]
     for b in bodies:
         for i in inits:
             body = b.replace("(lambda-test a)", "((lambda (x . r) (list x r a)) a)")
@@ -348,6 +348,14 @@ def part_c(level):
     # literal and propagated tests
     tests = ["#t", "#f", "0", "'()", "(let ((t #f)) t)", "(let ((t 1)) (if t #f #t))", "(not 1)", "(< 1 2)", "(= 1 1.0)", "(eq? 'a 'a)",
              "(obs #f)", "(begin (obs 't) #t)"]
+    # quoted constants are a different AST node (Lit) from self-evaluating ones: '#f must still count as false
+    tests_q = ["'#f", "'#t", "'0", "(let ((t '#f)) t)", "(let ((t '#f)) (if t 1 #f))", "(quote #f)", "(not '#f)"]
+    for t in tests_q:
+        for t2 in ["#t", "'#f", "'x"]:
+            yield (("C-ifq", t[:8]), "(if %s (begin (obs 'then) (if %s 1 2)) (begin (obs 'else) 3))" % (t, t2))
+            yield (("C-condq", t[:8]), "(cond (%s 'a) (%s (obs 'b)) (else 'c))" % (t, t2))
+            yield (("C-andq", t[:8]), "(list (and %s %s) (or %s %s) (when %s 'w) (unless %s 'u))" % (t, t2, t, t2, t, t))
+            yield (("C-letq", t[:8]), "(let ((flag %s) (other %s)) (list (if flag 'on 'off) (if other (obs 'o1) (obs 'o2)) flag))" % (t, t2))
     for t in tests:
         for t2 in tests[:6]:
             yield (("C-if", t[:8]), "(if %s (begin (obs 'then) (if %s 1 2)) (begin (obs 'else) 3))" % (t, t2))
